@@ -284,6 +284,11 @@ pub enum Stratum {
     /// One long history (60-150 operations, up to 100 loads over 4-6 images): whatever
     /// accumulates per process (a cache with a capacity, a counter) within reach of one run.
     LongHistory,
+    /// One very long, nearly fault-free history (700-1000 operations, more than 256 loads, more
+    /// than 65 536 lookups and conversions): whatever counts calls in something narrow, fills a
+    /// table with a capacity, or changes behaviour on the N-th call — within reach of ONE run,
+    /// so that it replays from its scenario in a fresh process.
+    Marathon,
 }
 
 const K_SHORT: u32 = 1;
@@ -427,6 +432,9 @@ pub fn stratum_of(run_index: u64, v0_len: usize, rng: &mut Rng) -> Stratum {
             return Stratum::ByteSweep(off as usize);
         }
     }
+    if run_index % 4096 == 131 {
+        return Stratum::Marathon;
+    }
     match rng.below(16) {
         0 => Stratum::Quiet,
         1..=3 => Stratum::Transparent,
@@ -456,9 +464,16 @@ pub fn generate(seed: u64, run_index: u64, infos: &[PoolInfo]) -> Scenario {
         imgs[0] = 0;
     }
     let n_clients = rng.urange(1, 3);
-    let long = stratum == Stratum::LongHistory;
-    let n_ops = if long { rng.urange(60, 150) } else { rng.urange(3, 12) };
-    let max_loads = if long { 100 } else { 6 };
+    let marathon = stratum == Stratum::Marathon;
+    let long = stratum == Stratum::LongHistory || marathon;
+    let n_ops = if marathon {
+        rng.urange(700, 1000)
+    } else if long {
+        rng.urange(60, 150)
+    } else {
+        rng.urange(3, 12)
+    };
+    let max_loads = if marathon { 400 } else if long { 100 } else { 6 };
     if long {
         // more images, small ones (a long history of 1-byte reads on a 140 KB file tells nothing)
         for _ in 0..3 {
@@ -499,6 +514,13 @@ pub fn generate(seed: u64, run_index: u64, infos: &[PoolInfo]) -> Scenario {
                 }
             }
         }
+        Stratum::Marathon => {
+            // nearly fault-free: the point is the length of the history, not the faults
+            kinds = K_SHORT | K_REPLACE | K_RESTART;
+            if rng.chance(1, 3) {
+                kinds |= K_EINTR;
+            }
+        }
         Stratum::LongHistory => {
             kinds = K_SHORT | K_REPLACE | K_REPLACE_MID | K_RESTART;
             for k in [K_EINTR, K_HARD, K_OPENFAIL, K_DENY] {
@@ -523,7 +545,7 @@ pub fn generate(seed: u64, run_index: u64, infos: &[PoolInfo]) -> Scenario {
     }
     let density: u64 = match stratum {
         Stratum::Quiet | Stratum::Transparent => 0,
-        Stratum::Concurrent | Stratum::LongHistory => 2,
+        Stratum::Concurrent | Stratum::LongHistory | Stratum::Marathon => 2,
         _ => *rng.pick(&[2, 4, 4, 6]),
     };
 
@@ -698,6 +720,7 @@ pub fn generate(seed: u64, run_index: u64, infos: &[PoolInfo]) -> Scenario {
             Stratum::Mixed => "mixed".into(),
             Stratum::Concurrent => "concurrent".into(),
             Stratum::LongHistory => "longhistory".into(),
+            Stratum::Marathon => "marathon".into(),
         },
         n_clients,
         initial: imgs[0],
